@@ -46,12 +46,14 @@ VARIABLES
     qto,      \* the transport's own query / idle liveness timeout hit this connection
     ugo,      \* udp: socket + reader goroutine alive
     cpc, cres, cctx, con, answered,
+    att,      \* the call has not chosen its connection yet: "a0" / "a1" (called at now = 0 / later), else "none" / "done"
     own,      \* the call opened the connection it waits on itself (a fresh connection: its failure is reported, not retried)
-    ust,      \* udp leg of a call: "none" | "sent" | "tc" | "ok" | "fail"
+    ust,      \* udp leg of a call: "none" | "sent" | "tc0" / "tc1" (truncated reply on its way, sent at now = 0 / later)
+              \* | "tc" (gone on over tcp) | "ok" | "fail"
     hist
 
 vars == <<kind, listen, now, cnow, closed, closeRet, dst, epoch0, sconn, dgo, qto, ugo,
-          cpc, cres, cctx, con, answered, own, ust, hist>>
+          cpc, cres, cctx, con, answered, att, own, ust, hist>>
 
 Dials == 1..MaxD
 Calls == InitCalls \cup (IF LateCall = 0 THEN {} ELSE {LateCall})
@@ -76,6 +78,7 @@ Init ==
     /\ con = [c \in Calls |-> 0]
     /\ answered = [c \in Calls |-> FALSE]
     /\ own = [c \in Calls |-> FALSE]
+    /\ att = [c \in Calls |-> "none"]
     /\ ust = [c \in Calls |-> "none"]
     /\ hist = <<>>
 
@@ -94,6 +97,7 @@ NewD == CHOOSE d \in Free : \A e \in Free : d <= e
 Urgent ==
     \/ \E d \in Dials : InProgress(d) /\ PhaseOk(d) /\ epoch0[d] /\ ByTimeout(d)
     \/ \E c \in Calls : Waiting(c) /\ con[c] # 0 /\ dst[con[c]] = "failed"
+    \/ \E c \in Calls : Waiting(c) /\ (ust[c] = "tc0" \/ (att[c] = "a0" /\ ~closed))
 \* system steps that Close enables
 CUrgent ==
     \/ \E d \in Dials : InProgress(d) /\ PhaseOk(d) /\ ByClose(d)
@@ -105,7 +109,7 @@ CUrgent ==
 
 AllDone == closeRet /\ cnow = 2 /\ \A c \in Calls : cpc[c] \in {"idle", "done"}
 \* generator filter: the environment moves only when nothing internal is pending
-Busy == Urgent \/ CUrgent \/ \E c \in Calls : Waiting(c) /\ (answered[c] \/ cctx[c] \/ ust[c] = "fail")
+Busy == Urgent \/ CUrgent \/ \E c \in Calls : Waiting(c) /\ (answered[c] \/ cctx[c] \/ ust[c] \in {"fail", "tc0", "tc1"} \/ (att[c] \in {"a0", "a1"} /\ ~closed))
 EnvMay == ~Eager \/ (~Busy /\ ~AllDone)
 
 ------------------------------------------------------------------------------
@@ -124,22 +128,33 @@ Call(c) ==
     /\ (Eager => now = 0)
     /\ cpc' = [cpc EXCEPT ![c] = "wait"]
     /\ IF Udp
-         THEN /\ ust' = [ust EXCEPT ![c] = "sent"] /\ ugo' = TRUE
-              /\ UNCHANGED <<dst, epoch0, dgo, con, own>>
-         ELSE /\ UNCHANGED <<ust, ugo>>
-              /\ \/ /\ Free # {} /\ StartDial(NewD) /\ con' = [con EXCEPT ![c] = NewD]
-                    /\ own' = [own EXCEPT ![c] = TRUE]
-                 \/ /\ \E d \in Dials :
-                         /\ \/ Pipe /\ dst[d] \in {"connecting", "handshaking", "up"}
-                            \/ dst[d] = "up" /\ Idle(d)
-                         /\ con' = [con EXCEPT ![c] = d]
-                         \* which of the calls sharing a lazy dial really opened it is not observable: either
-                         /\ \/ UNCHANGED own
-                            \/ \E o \in Calls : /\ o # c /\ con[o] = d /\ own[o] /\ Waiting(o)
-                                                 /\ own' = [own EXCEPT ![o] = FALSE, ![c] = TRUE]
-                    /\ UNCHANGED <<dst, epoch0, dgo>>
+         THEN ust' = [ust EXCEPT ![c] = "sent"] /\ ugo' = TRUE /\ UNCHANGED att
+         ELSE att' = [att EXCEPT ![c] = IF now = 0 THEN "a0" ELSE "a1"] /\ UNCHANGED <<ust, ugo>>
     /\ H([a |-> "Call", c |-> c])
-    /\ UNCHANGED <<kind, listen, now, cnow, closed, closeRet, sconn, qto, cres, cctx, answered>>
+    /\ UNCHANGED <<kind, listen, now, cnow, closed, closeRet, dst, epoch0, sconn, dgo, qto, cres, cctx, con, answered, own>>
+
+\* the call gets its connection: it waits for a new dial (whose clock started with the call), or (pipeline) joins a live
+\* connection / (any kind) takes an idle established one
+Attach(c) ==
+    /\ Waiting(c) /\ att[c] \in {"a0", "a1"} /\ ~closed
+    /\ att' = [att EXCEPT ![c] = "done"]
+    /\ \/ /\ Free # {}
+          /\ dst' = [dst EXCEPT ![NewD] = "connecting"]
+          /\ epoch0' = [epoch0 EXCEPT ![NewD] = (att[c] = "a0")]
+          /\ dgo' = [dgo EXCEPT ![NewD] = TRUE]
+          /\ con' = [con EXCEPT ![c] = NewD]
+          /\ own' = [own EXCEPT ![c] = TRUE]
+       \/ /\ \E d \in Dials :
+               /\ \/ Pipe /\ dst[d] \in {"connecting", "handshaking", "up"}
+                  \/ dst[d] = "up" /\ Idle(d)
+               /\ con' = [con EXCEPT ![c] = d]
+               \* which of the calls sharing a lazy dial really opened it is not observable: either
+               /\ \/ UNCHANGED own
+                  \/ \E o \in Calls : /\ o # c /\ con[o] = d /\ own[o] /\ Waiting(o)
+                                       /\ own' = [own EXCEPT ![o] = FALSE, ![c] = TRUE]
+          /\ UNCHANGED <<dst, epoch0, dgo>>
+    /\ H([a |-> "Attach", c |-> c])
+    /\ UNCHANGED <<kind, listen, now, cnow, closed, closeRet, sconn, qto, ugo, cpc, cres, cctx, answered, ust>>
 
 \* a call made after Close returned fails at once
 CallLate(c) ==
@@ -149,13 +164,13 @@ CallLate(c) ==
          THEN cpc' = [cpc EXCEPT ![c] = "wait"] /\ UNCHANGED cres
          ELSE cpc' = [cpc EXCEPT ![c] = "done"] /\ cres' = [cres EXCEPT ![c] = "err"]
     /\ H([a |-> "CallLate", c |-> c])
-    /\ UNCHANGED <<kind, listen, now, cnow, closed, closeRet, dst, epoch0, sconn, dgo, qto, ugo, cctx, con, answered, ust, own>>
+    /\ UNCHANGED <<kind, listen, now, cnow, closed, closeRet, dst, epoch0, sconn, dgo, qto, ugo, cctx, con, answered, ust, own, att>>
 
 RetOk(c) ==
     /\ Waiting(c) /\ answered[c]
     /\ cpc' = [cpc EXCEPT ![c] = "done"] /\ cres' = [cres EXCEPT ![c] = "ok"]
     /\ H([a |-> "RetOk", c |-> c])
-    /\ UNCHANGED <<kind, listen, now, cnow, closed, closeRet, dst, epoch0, sconn, dgo, qto, ugo, cctx, con, answered, ust, own>>
+    /\ UNCHANGED <<kind, listen, now, cnow, closed, closeRet, dst, epoch0, sconn, dgo, qto, ugo, cctx, con, answered, ust, own, att>>
 
 ErrCause(c) ==
     \/ cctx[c]
@@ -167,7 +182,7 @@ RetErr(c) ==
     /\ Waiting(c) /\ ErrCause(c)
     /\ cpc' = [cpc EXCEPT ![c] = "done"] /\ cres' = [cres EXCEPT ![c] = "err"]
     /\ H([a |-> "RetErr", c |-> c])
-    /\ UNCHANGED <<kind, listen, now, cnow, closed, closeRet, dst, epoch0, sconn, dgo, qto, ugo, cctx, con, answered, ust, own>>
+    /\ UNCHANGED <<kind, listen, now, cnow, closed, closeRet, dst, epoch0, sconn, dgo, qto, ugo, cctx, con, answered, ust, own, att>>
 
 \* a call whose connection died / whose shared dial failed may be tried again on another connection (the transports
 \* retry calls that did not open the connection themselves; how often is not part of this contract)
@@ -182,7 +197,7 @@ Retry(c) ==
                /\ con' = [con EXCEPT ![c] = d]
           /\ UNCHANGED <<dst, epoch0, dgo, own>>
     /\ H([a |-> "Retry", c |-> c])
-    /\ UNCHANGED <<kind, listen, now, cnow, closed, closeRet, sconn, qto, ugo, cpc, cres, cctx, answered, ust>>
+    /\ UNCHANGED <<kind, listen, now, cnow, closed, closeRet, sconn, qto, ugo, cpc, cres, cctx, answered, ust, att>>
 
 \* deviation only: the truncated udp reply handed out as a success after the tcp leg failed
 RetTc(c) ==
@@ -190,7 +205,7 @@ RetTc(c) ==
     /\ Waiting(c) /\ ust[c] = "tc" /\ con[c] # 0 /\ Ended(con[c])
     /\ cpc' = [cpc EXCEPT ![c] = "done"] /\ cres' = [cres EXCEPT ![c] = "ok"]
     /\ H([a |-> "RetTc", c |-> c])
-    /\ UNCHANGED <<kind, listen, now, cnow, closed, closeRet, dst, epoch0, sconn, dgo, qto, ugo, cctx, con, answered, ust, own>>
+    /\ UNCHANGED <<kind, listen, now, cnow, closed, closeRet, dst, epoch0, sconn, dgo, qto, ugo, cctx, con, answered, ust, own, att>>
 
 ------------------------------------------------------------------------------
 \* dial / connection: system steps
@@ -203,7 +218,7 @@ DialAbort(d) ==
     /\ dst' = [dst EXCEPT ![d] = "failed"]
     /\ CloseClient(d)
     /\ H([a |-> "DialAbort", d |-> d])
-    /\ UNCHANGED <<kind, listen, now, cnow, closed, closeRet, epoch0, dgo, qto, ugo, cpc, cres, cctx, con, answered, ust, own>>
+    /\ UNCHANGED <<kind, listen, now, cnow, closed, closeRet, epoch0, dgo, qto, ugo, cpc, cres, cctx, con, answered, ust, own, att>>
 
 \* an established connection is closed: by Close, after the server closed it, after the transport's own
 \* liveness timeout, or any time while idle (idle timeout)
@@ -214,25 +229,25 @@ ConnClose(d) ==
     /\ dst' = [dst EXCEPT ![d] = "closed"]
     /\ CloseClient(d)
     /\ H([a |-> "ConnClose", d |-> d])
-    /\ UNCHANGED <<kind, listen, now, cnow, closed, closeRet, epoch0, dgo, qto, ugo, cpc, cres, cctx, con, answered, ust, own>>
+    /\ UNCHANGED <<kind, listen, now, cnow, closed, closeRet, epoch0, dgo, qto, ugo, cpc, cres, cctx, con, answered, ust, own, att>>
 
 GoExit(d) ==
     /\ Ended(d) /\ dgo[d]
     /\ dgo' = [dgo EXCEPT ![d] = FALSE]
     /\ H([a |-> "GoExit", d |-> d])
-    /\ UNCHANGED <<kind, listen, now, cnow, closed, closeRet, dst, epoch0, sconn, qto, ugo, cpc, cres, cctx, con, answered, ust, own>>
+    /\ UNCHANGED <<kind, listen, now, cnow, closed, closeRet, dst, epoch0, sconn, qto, ugo, cpc, cres, cctx, con, answered, ust, own, att>>
 
 UGoExit ==
     /\ ugo /\ closed
     /\ ugo' = FALSE
     /\ H([a |-> "UGoExit"])
-    /\ UNCHANGED <<kind, listen, now, cnow, closed, closeRet, dst, epoch0, sconn, dgo, qto, cpc, cres, cctx, con, answered, ust, own>>
+    /\ UNCHANGED <<kind, listen, now, cnow, closed, closeRet, dst, epoch0, sconn, dgo, qto, cpc, cres, cctx, con, answered, ust, own, att>>
 
 CloseReturns ==
     /\ closed /\ ~closeRet
     /\ closeRet' = TRUE
     /\ H([a |-> "CloseReturns"])
-    /\ UNCHANGED <<kind, listen, now, cnow, closed, dst, epoch0, sconn, dgo, qto, ugo, cpc, cres, cctx, con, answered, ust, own>>
+    /\ UNCHANGED <<kind, listen, now, cnow, closed, dst, epoch0, sconn, dgo, qto, ugo, cpc, cres, cctx, con, answered, ust, own, att>>
 
 ------------------------------------------------------------------------------
 \* environment: server, timers, the user of the upstream
@@ -243,21 +258,21 @@ TcpAccept(d) ==
     /\ sconn' = [sconn EXCEPT ![d] = "open"]
     /\ dst' = [dst EXCEPT ![d] = IF Tls THEN "handshaking" ELSE "up"]
     /\ H([a |-> "TcpAccept", d |-> d])
-    /\ UNCHANGED <<kind, listen, now, cnow, closed, closeRet, epoch0, dgo, qto, ugo, cpc, cres, cctx, con, answered, ust, own>>
+    /\ UNCHANGED <<kind, listen, now, cnow, closed, closeRet, epoch0, dgo, qto, ugo, cpc, cres, cctx, con, answered, ust, own, att>>
 
 TcpRefuse(d) ==
     /\ EnvMay
     /\ listen = "refuse" /\ dst[d] = "connecting"
     /\ dst' = [dst EXCEPT ![d] = "failed"]
     /\ H([a |-> "TcpRefuse", d |-> d])
-    /\ UNCHANGED <<kind, listen, now, cnow, closed, closeRet, epoch0, sconn, dgo, qto, ugo, cpc, cres, cctx, con, answered, ust, own>>
+    /\ UNCHANGED <<kind, listen, now, cnow, closed, closeRet, epoch0, sconn, dgo, qto, ugo, cpc, cres, cctx, con, answered, ust, own, att>>
 
 HsComplete(d) ==
     /\ EnvMay
     /\ dst[d] = "handshaking" /\ sconn[d] = "open"
     /\ dst' = [dst EXCEPT ![d] = "up"]
     /\ H([a |-> "HsComplete", d |-> d])
-    /\ UNCHANGED <<kind, listen, now, cnow, closed, closeRet, epoch0, sconn, dgo, qto, ugo, cpc, cres, cctx, con, answered, ust, own>>
+    /\ UNCHANGED <<kind, listen, now, cnow, closed, closeRet, epoch0, sconn, dgo, qto, ugo, cpc, cres, cctx, con, answered, ust, own, att>>
 
 \* the server closes the connection: during the handshake the dial fails, later the connection is dead
 SrvClose(d) ==
@@ -266,14 +281,14 @@ SrvClose(d) ==
     /\ sconn' = [sconn EXCEPT ![d] = "sclosed"]
     /\ dst' = [dst EXCEPT ![d] = IF dst[d] = "handshaking" THEN "failed" ELSE "up"]
     /\ H([a |-> "SrvClose", d |-> d])
-    /\ UNCHANGED <<kind, listen, now, cnow, closed, closeRet, epoch0, dgo, qto, ugo, cpc, cres, cctx, con, answered, ust, own>>
+    /\ UNCHANGED <<kind, listen, now, cnow, closed, closeRet, epoch0, dgo, qto, ugo, cpc, cres, cctx, con, answered, ust, own, att>>
 
 Answer(c) ==
     /\ EnvMay
     /\ Waiting(c) /\ ~answered[c] /\ con[c] # 0 /\ dst[con[c]] = "up" /\ sconn[con[c]] = "open"
     /\ answered' = [answered EXCEPT ![c] = TRUE]
     /\ H([a |-> "Answer", c |-> c])
-    /\ UNCHANGED <<kind, listen, now, cnow, closed, closeRet, dst, epoch0, sconn, dgo, qto, ugo, cpc, cres, cctx, con, ust, own>>
+    /\ UNCHANGED <<kind, listen, now, cnow, closed, closeRet, dst, epoch0, sconn, dgo, qto, ugo, cpc, cres, cctx, con, ust, own, att>>
 
 \* the transport's own liveness timeout (6 s reuse / 10 s pipelined, udp): the silent connection is given up
 QueryTimeout(d) ==
@@ -281,37 +296,47 @@ QueryTimeout(d) ==
     /\ dst[d] = "up" /\ ~qto[d] /\ \E c \in Calls : Waiting(c) /\ con[c] = d /\ ~answered[c]
     /\ qto' = [qto EXCEPT ![d] = TRUE]
     /\ H([a |-> "QueryTimeout", d |-> d])
-    /\ UNCHANGED <<kind, listen, now, cnow, closed, closeRet, dst, epoch0, sconn, dgo, ugo, cpc, cres, cctx, con, answered, ust, own>>
+    /\ UNCHANGED <<kind, listen, now, cnow, closed, closeRet, dst, epoch0, sconn, dgo, ugo, cpc, cres, cctx, con, answered, ust, own, att>>
 
 \* udp leg: a full reply, a truncated one (the call goes on over a new tcp connection), or silence until the timeout
 UdpAnswer(c, tc) ==
     /\ EnvMay
     /\ Udp /\ Waiting(c) /\ ust[c] = "sent"
     /\ IF tc
-         THEN /\ Free # {} /\ StartDial(NewD)
-              /\ con' = [con EXCEPT ![c] = NewD]
-              /\ own' = [own EXCEPT ![c] = TRUE]
-              /\ ust' = [ust EXCEPT ![c] = "tc"]
-              /\ UNCHANGED answered
-         ELSE /\ ust' = [ust EXCEPT ![c] = "ok"]
-              /\ answered' = [answered EXCEPT ![c] = TRUE]
-              /\ UNCHANGED <<dst, epoch0, dgo, con, own>>
+         THEN ust' = [ust EXCEPT ![c] = IF now = 0 THEN "tc0" ELSE "tc1"] /\ UNCHANGED answered
+         ELSE ust' = [ust EXCEPT ![c] = "ok"] /\ answered' = [answered EXCEPT ![c] = TRUE]
     /\ H([a |-> "UdpAnswer", c |-> c, tc |-> tc])
-    /\ UNCHANGED <<kind, listen, now, cnow, closed, closeRet, sconn, qto, ugo, cpc, cres, cctx>>
+    /\ UNCHANGED <<kind, listen, now, cnow, closed, closeRet, dst, epoch0, sconn, dgo, qto, ugo, cpc, cres, cctx, con, own, att>>
+
+\* the call has read the truncated reply and goes on over tcp: a new dial (its clock starts when the truncated reply
+\* was sent) or an idle tcp connection
+Fallback(c) ==
+    /\ Waiting(c) /\ ust[c] \in {"tc0", "tc1"}
+    /\ \/ /\ Free # {}
+          /\ dst' = [dst EXCEPT ![NewD] = "connecting"]
+          /\ epoch0' = [epoch0 EXCEPT ![NewD] = (ust[c] = "tc0")]
+          /\ dgo' = [dgo EXCEPT ![NewD] = TRUE]
+          /\ con' = [con EXCEPT ![c] = NewD]
+          /\ own' = [own EXCEPT ![c] = TRUE]
+       \/ /\ \E d \in Dials : dst[d] = "up" /\ Idle(d) /\ con' = [con EXCEPT ![c] = d]
+          /\ UNCHANGED <<dst, epoch0, dgo, own>>
+    /\ ust' = [ust EXCEPT ![c] = "tc"]
+    /\ H([a |-> "Fallback", c |-> c])
+    /\ UNCHANGED <<kind, listen, now, cnow, closed, closeRet, sconn, qto, ugo, cpc, cres, cctx, answered, att>>
 
 UdpTimeout(c) ==
     /\ EnvMay
     /\ Udp /\ Waiting(c) /\ ust[c] = "sent"
     /\ ust' = [ust EXCEPT ![c] = "fail"]
     /\ H([a |-> "UdpTimeout", c |-> c])
-    /\ UNCHANGED <<kind, listen, now, cnow, closed, closeRet, dst, epoch0, sconn, dgo, qto, ugo, cpc, cres, cctx, con, answered, own>>
+    /\ UNCHANGED <<kind, listen, now, cnow, closed, closeRet, dst, epoch0, sconn, dgo, qto, ugo, cpc, cres, cctx, con, answered, own, att>>
 
 Cancel(c) ==
     /\ EnvMay /\ EnvCancel
     /\ Waiting(c) /\ ~cctx[c]
     /\ cctx' = [cctx EXCEPT ![c] = TRUE]
     /\ H([a |-> "Cancel", c |-> c])
-    /\ UNCHANGED <<kind, listen, now, cnow, closed, closeRet, dst, epoch0, sconn, dgo, qto, ugo, cpc, cres, con, answered, ust, own>>
+    /\ UNCHANGED <<kind, listen, now, cnow, closed, closeRet, dst, epoch0, sconn, dgo, qto, ugo, cpc, cres, con, answered, ust, own, att>>
 
 \* (generator: time passes / Close happens only after the scenario's calls have been made)
 AllCalled == \A c \in InitCalls : cpc[c] # "idle"
@@ -321,30 +346,30 @@ Close ==
     /\ ~closed
     /\ closed' = TRUE
     /\ H([a |-> "Close"])
-    /\ UNCHANGED <<kind, listen, now, cnow, closeRet, dst, epoch0, sconn, dgo, qto, ugo, cpc, cres, cctx, con, answered, ust, own>>
+    /\ UNCHANGED <<kind, listen, now, cnow, closeRet, dst, epoch0, sconn, dgo, qto, ugo, cpc, cres, cctx, con, answered, ust, own, att>>
 
 Tick01 ==
     /\ EnvMay /\ (Eager => AllCalled)
     /\ now = 0 /\ now' = 1
     /\ H([a |-> "Tick01"])
-    /\ UNCHANGED <<kind, listen, cnow, closed, closeRet, dst, epoch0, sconn, dgo, qto, ugo, cpc, cres, cctx, con, answered, ust, own>>
+    /\ UNCHANGED <<kind, listen, cnow, closed, closeRet, dst, epoch0, sconn, dgo, qto, ugo, cpc, cres, cctx, con, answered, ust, own, att>>
 
 \* dial timeout + slack has certainly passed: only when nothing the timeout enables is still pending
 Tick12 ==
     /\ EnvMay
     /\ now = 1 /\ ~Urgent /\ now' = 2
     /\ H([a |-> "Tick12"])
-    /\ UNCHANGED <<kind, listen, cnow, closed, closeRet, dst, epoch0, sconn, dgo, qto, ugo, cpc, cres, cctx, con, answered, ust, own>>
+    /\ UNCHANGED <<kind, listen, cnow, closed, closeRet, dst, epoch0, sconn, dgo, qto, ugo, cpc, cres, cctx, con, answered, ust, own, att>>
 
 CTick ==
     /\ EnvMay
     /\ closed /\ cnow = 0 /\ ~CUrgent /\ cnow' = 2
     /\ H([a |-> "CTick"])
-    /\ UNCHANGED <<kind, listen, now, closed, closeRet, dst, epoch0, sconn, dgo, qto, ugo, cpc, cres, cctx, con, answered, ust, own>>
+    /\ UNCHANGED <<kind, listen, now, closed, closeRet, dst, epoch0, sconn, dgo, qto, ugo, cpc, cres, cctx, con, answered, ust, own, att>>
 
 Next ==
-    \/ \E c \in Calls : Call(c) \/ CallLate(c) \/ RetOk(c) \/ RetErr(c) \/ RetTc(c) \/ Retry(c) \/ Answer(c) \/ Cancel(c)
-                        \/ UdpTimeout(c) \/ \E tc \in BOOLEAN : UdpAnswer(c, tc)
+    \/ \E c \in Calls : Call(c) \/ Attach(c) \/ CallLate(c) \/ RetOk(c) \/ RetErr(c) \/ RetTc(c) \/ Retry(c) \/ Answer(c) \/ Cancel(c)
+                        \/ UdpTimeout(c) \/ Fallback(c) \/ \E tc \in BOOLEAN : UdpAnswer(c, tc)
     \/ \E d \in Dials : DialAbort(d) \/ ConnClose(d) \/ GoExit(d) \/ TcpAccept(d) \/ TcpRefuse(d) \/ HsComplete(d)
                         \/ SrvClose(d) \/ QueryTimeout(d)
     \/ UGoExit \/ CloseReturns \/ Close \/ Tick01 \/ Tick12 \/ CTick
@@ -354,7 +379,7 @@ Spec == Init /\ [][Next]_vars
 \* system steps run; timers fire
 FairSpec ==
     /\ Spec
-    /\ \A c \in Calls : WF_vars(RetOk(c) \/ RetErr(c)) /\ WF_vars(UdpTimeout(c))
+    /\ \A c \in Calls : WF_vars(RetOk(c) \/ RetErr(c)) /\ WF_vars(UdpTimeout(c)) /\ WF_vars(Fallback(c)) /\ WF_vars(Attach(c))
     /\ \A d \in Dials : WF_vars(DialAbort(d)) /\ WF_vars(ConnClose(d)) /\ WF_vars(GoExit(d)) /\ WF_vars(QueryTimeout(d))
     /\ WF_vars(UGoExit) /\ WF_vars(CloseReturns) /\ WF_vars(Tick01)
 
@@ -392,5 +417,5 @@ Emit == AllDone =>
     PrintT(<<"BEH", ToJson([kind |-> kind, listen |-> listen, steps |-> hist])>>)
 
 ViewNoHist == <<kind, listen, now, cnow, closed, closeRet, dst, epoch0, sconn, dgo, qto, ugo,
-                cpc, cres, cctx, con, answered, own, ust>>
+                cpc, cres, cctx, con, answered, att, own, ust>>
 =============================================================================
